@@ -723,6 +723,25 @@ func withDict(r *R, c Cfg) (Cfg, bool) {
 			changed = true
 		}
 	}
+	if n, ok := dict.bytes.pick(r, 0.15); ok {
+		// a mined byte length: one header list is padded until its joined form is that long
+		l, name := &d.ResponseHeaders, "X-Pad-%04d"
+		if r.P(0.35) {
+			l, name = &d.RequestHeaders, "x-pad-%04d"
+		}
+		if !hasStar(*l) {
+			size := 0
+			for _, h := range *l {
+				size += len(h) + 1
+			}
+			for i := 0; size <= n+1; i++ {
+				h := fmt.Sprintf(name, i)
+				*l = append(*l, h)
+				size += len(h) + 1
+				changed = true
+			}
+		}
+	}
 	if n, ok := dict.maxAge.pick(r, 0.25); ok {
 		d.MaxAge, changed = n, true
 	}
